@@ -43,6 +43,23 @@ class Sexp:
             self.i += 1
             if c == '"':
                 return ("str", "".join(out), prefix)
+            if "f" in prefix and c == "{":
+                if t.startswith("{", self.i):
+                    self.i += 1
+                    out.append("{{")
+                    continue
+                # a replacement field: forms (which may hold strings) up to the closing brace, kept as source text
+                start = self.i
+                while True:
+                    self.skip()
+                    if self.i >= len(t):
+                        self.err("unterminated replacement field")
+                    if t[self.i] == "}":
+                        break
+                    self.form()
+                out.append("{" + t[start:self.i] + "}")
+                self.i += 1
+                continue
             if c == "\\" and "r" not in prefix:
                 if self.i >= len(t):
                     self.err("unterminated string")
